@@ -1,6 +1,6 @@
 (* Progress of the node-local protocol (C05): with a threshold of honest members exchanging
-   their partials, the round after the stored head is produced -- by every one of them, one
-   round after the other.  Model: Model/Node.v. *)
+   their partials, the round after the stored head is produced -- by every one of them, and
+   then the next one, one round after the other with none skipped.  Model: Model/Node.v. *)
 From Coq Require Import ZArith List Bool Lia.
 From DV Require Import Model.Time Model.Node Proofs.NodeProofs.
 Import ListNotations.
@@ -29,48 +29,12 @@ Section NodeLive.
     NoDup (map idx_of sigs) -> t <= Z.of_nat (length sigs) ->
     (forall x, In x sigs -> vpart P r p x = true) ->
     exists s, recov P r p sigs t = Some s /\ vrec r p s = true.
+  Hypothesis limit_nonneg : 0 <= c_limit C.
+  Hypothesis vrec_unchained : c_chained C = false -> forall r p p' s, vrec r p s = vrec r p' s.
 
   Notation step := (step C idx_of vpart recov vrec own_psig).
-  Notation run := (run C idx_of vpart recov vrec own_psig).
   Notation agg_partial := (agg_partial C idx_of recov vrec).
   Notation process_partial := (process_partial C idx_of vpart recov vrec).
-
-  (* ---- cache lemmas ---- *)
-  Lemma cache_find_add_absent c r p i sg :
-    cache_find c r p = None -> cache_find (cache_add c r p i sg) r p = Some (mkCE r p [(i, sg)]).
-  Proof.
-    induction c as [|e c IH]; simpl; intros H.
-    - rewrite !Z.eqb_refl. reflexivity.
-    - destruct ((ce_round e =? r) && (ce_prev e =? p)) eqn:E; [discriminate|]. simpl. rewrite E. auto.
-  Qed.
-
-  Lemma cache_find_add_present c r p i sg e :
-    cache_find c r p = Some e -> ce_round e = r /\ ce_prev e = p ->
-    cache_find (cache_add c r p i sg) r p =
-      Some (if memb i (map fst (ce_sigs e)) then e else mkCE r p (ce_sigs e ++ [(i, sg)])).
-  Proof.
-    induction c as [|x c IH]; simpl; intros H Hrp; [discriminate|].
-    destruct ((ce_round x =? r) && (ce_prev x =? p)) eqn:E.
-    - inversion H; subst x. simpl.
-      destruct (memb i (map fst (ce_sigs e))); simpl.
-      + rewrite E. reflexivity.
-      + rewrite !Z.eqb_refl. reflexivity.
-    - simpl. rewrite E. auto.
-  Qed.
-
-  Lemma cache_find_key c r p e : cache_find c r p = Some e -> ce_round e = r /\ ce_prev e = p.
-  Proof.
-    induction c as [|x c IH]; simpl; intros H; [discriminate|].
-    destruct ((ce_round x =? r) && (ce_prev x =? p)) eqn:E; [|auto].
-    inversion H; subst. apply andb_prop in E as [E1 E2]. apply Z.eqb_eq in E1, E2. auto.
-  Qed.
-
-  Lemma memb_false_notin i l : memb i l = false -> ~ In i l.
-  Proof.
-    unfold memb. intros H Hin. assert (existsb (Z.eqb i) l = true).
-    { apply existsb_exists. exists i. split; [exact Hin|apply Z.eqb_refl]. }
-    congruence.
-  Qed.
 
   Lemma memb_true_in i l : memb i l = true -> In i l.
   Proof. unfold memb. intros H. apply existsb_exists in H as [x [Hin E]]. apply Z.eqb_eq in E. subst; exact Hin. Qed.
@@ -78,92 +42,290 @@ Section NodeLive.
   Lemma notin_memb_false i l : ~ In i l -> memb i l = false.
   Proof. intros H. destruct (memb i l) eqn:E; [|reflexivity]. apply memb_true_in in E. contradiction. Qed.
 
-  (* ---- the round being collected ---- *)
-  (* node state that holds, for the round after its head [hb] and the previous signature an
-     honest node sends, exactly the partials [sigs] (index-consistent, distinct, all valid) *)
-  Record collecting (s : nstate) (hb : beacon) (sigs : list (Z * Z)) : Prop := {
-    col_run : s_running s = true;
-    col_head : head s = hb;
-    col_find : cache_find (s_cache s) (b_round hb + 1) (b_sig hb) = Some (mkCE (b_round hb + 1) (b_sig hb) sigs);
-    col_idx : forall i sg, In (i, sg) sigs -> idx_of sg = i;
-    col_nodup : NoDup (map fst sigs);
-    col_valid : forall i sg, In (i, sg) sigs -> vpart (g_poly (s_grp s)) (b_round hb + 1) (b_sig hb) sg = true;
-    col_few : Z.of_nat (length sigs) < g_thr (s_grp s)
-  }.
-
   Lemma map_idx_sigs sigs : (forall i sg, In (i, sg) sigs -> idx_of sg = i) -> map idx_of (map snd sigs) = map fst sigs.
   Proof.
     induction sigs as [|[i sg] l IH]; intros H; simpl; [reflexivity|].
     rewrite (H i sg (or_introl eq_refl)). f_equal. apply IH. intros; apply H; right; assumption.
   Qed.
 
-  Hypothesis limit_nonneg : 0 <= c_limit C.
+  (* the beacon of the round after hb, as stored *)
+  Definition next_beacon (hb : beacon) (fs : Z) : beacon := stored_form C (mkB (b_round hb + 1) (b_sig hb) fs).
 
-  (* the round after hb has been produced and stored *)
-  Definition produced (s : nstate) (hb : beacon) : Prop :=
-    b_round (head s) = b_round hb + 1 /\
-    vrec (b_round (head s)) (b_prev (head s)) (b_sig (head s)) = true /\
-    s_running s = true.
-
-  Hypothesis vrec_unchained : c_chained C = false -> forall r p p' s, vrec r p s = vrec r p' s.
-
-  (* one more valid partial from a new index: either still collecting, or the round is produced *)
-  Lemma collect_step s hb sigs i sg :
-    collecting s hb sigs -> idx_of sg = i -> ~ In i (map fst sigs) ->
-    vpart (g_poly (s_grp s)) (b_round hb + 1) (b_sig hb) sg = true ->
-    forall s' o, agg_partial s (b_round hb + 1) (b_sig hb) sg = (s', o) ->
-      (collecting s' hb (sigs ++ [(i, sg)]) /\ s_grp s' = s_grp s /\ s_now s' = s_now s) \/ produced s' hb.
+  Lemma next_beacon_ok hb fs : vrec (b_round hb + 1) (b_sig hb) fs = true ->
+    b_round (next_beacon hb fs) = b_round hb + 1 /\
+    vrec (b_round (next_beacon hb fs)) (b_prev (next_beacon hb fs)) (b_sig (next_beacon hb fs)) = true /\
+    b_sig (next_beacon hb fs) = fs.
   Proof.
-    intros Hc Hi Hn Hv s' o H. destruct Hc as [Hrun Hhead Hfind Hidx Hnd Hval Hfew].
-    unfold Node.agg_partial in H. rewrite Hhead in H.
+    intros Hv. unfold next_beacon, stored_form. destruct (c_chained C) eqn:Ech; cbn [b_round b_prev b_sig]; repeat split; auto.
+    rewrite (vrec_unchained eq_refl _ _ (b_sig hb)). exact Hv.
+  Qed.
+
+  (* what stays fixed while a round is being collected, relative to the state s0 at its start *)
+  Definition same_base (s0 s : nstate) : Prop :=
+    s_grp s = s_grp s0 /\ s_now s = s_now s0 /\ s_pending s = None /\ s_running s = true.
+
+  (* collecting the round after hb: the cache is exactly one entry, for (hb.round+1, hb.sig),
+     holding index-consistent, pairwise distinct, valid partials, fewer than the threshold *)
+  Record collecting (s0 s : nstate) (hb : beacon) (sigs : list (Z * Z)) : Prop := {
+    col_base : same_base s0 s;
+    col_chain : s_chain s = s_chain s0;
+    col_cache : s_cache s = [mkCE (b_round hb + 1) (b_sig hb) sigs];
+    col_idx : forall i sg, In (i, sg) sigs -> idx_of sg = i;
+    col_nodup : NoDup (map fst sigs);
+    col_valid : forall i sg, In (i, sg) sigs -> vpart (g_poly (s_grp s0)) (b_round hb + 1) (b_sig hb) sg = true;
+    col_few : Z.of_nat (length sigs) < g_thr (s_grp s0)
+  }.
+
+  (* the round after hb has been produced: the chain grew by exactly its verified beacon, the
+     cache is empty again *)
+  Definition produced (s0 s : nstate) (hb : beacon) : Prop :=
+    same_base s0 s /\ s_cache s = [] /\
+    exists fs, vrec (b_round hb + 1) (b_sig hb) fs = true /\ s_chain s = next_beacon hb fs :: s_chain s0.
+
+  (* the aggregator's reaction to a partial for (hb.round+1, hb.sig) when the cache is [c] *)
+  Lemma agg_on_round s0 s hb c sg sigs' :
+    same_base s0 s -> s_chain s = s_chain s0 -> head s0 = hb -> s_cache s = c ->
+    cache_find (cache_add c (b_round hb + 1) (b_sig hb) (idx_of sg) sg) (b_round hb + 1) (b_sig hb)
+      = Some (mkCE (b_round hb + 1) (b_sig hb) sigs') ->
+    cache_add c (b_round hb + 1) (b_sig hb) (idx_of sg) sg = [mkCE (b_round hb + 1) (b_sig hb) sigs'] ->
+    (forall i x, In (i, x) sigs' -> idx_of x = i) -> NoDup (map fst sigs') ->
+    (forall i x, In (i, x) sigs' -> vpart (g_poly (s_grp s0)) (b_round hb + 1) (b_sig hb) x = true) ->
+    forall s' o, agg_partial s (b_round hb + 1) (b_sig hb) sg = (s', o) ->
+      collecting s0 s' hb sigs' \/ produced s0 s' hb.
+  Proof.
+    intros [Bg [Bn [Bp Br]]] Hch Hhead Hc Hfind Hadd Hidx' Hnd' Hval' s' o H.
+    assert (Hhd : head s = hb) by (unfold head in *; rewrite Hch; exact Hhead).
+    unfold Node.agg_partial in H. rewrite Hhd, Hc in H.
     assert (W : negb ((b_round hb <? b_round hb + 1) && (b_round hb + 1 <=? b_round hb + c_limit C + 1)) = false).
     { destruct (Z.ltb_spec (b_round hb) (b_round hb + 1)); [|lia].
       destruct (Z.leb_spec (b_round hb + 1) (b_round hb + c_limit C + 1)); [reflexivity|lia]. }
-    rewrite W in H. rewrite Hi in H.
-    rewrite (cache_find_add_present _ _ _ i sg _ Hfind (conj eq_refl eq_refl)) in H.
-    cbn [ce_sigs] in H. rewrite (notin_memb_false _ _ Hn) in H. cbn [ce_sigs] in H.
-    set (sigs' := sigs ++ [(i, sg)]) in *.
-    assert (Hidx' : forall j x, In (j, x) sigs' -> idx_of x = j).
-    { intros j x Hin. apply in_app_or in Hin as [Hin|[Hin|[]]]; [eauto|]. inversion Hin; subst; reflexivity. }
-    assert (Hnd' : NoDup (map fst sigs')).
-    { unfold sigs'. rewrite map_app. simpl. apply NoDup_app_single; assumption. }
-    assert (Hval' : forall j x, In (j, x) sigs' -> vpart (g_poly (s_grp s)) (b_round hb + 1) (b_sig hb) x = true).
-    { intros j x Hin. apply in_app_or in Hin as [Hin|[Hin|[]]]; [eauto|]. inversion Hin; subst; exact Hv. }
-    destruct (Z.of_nat (length sigs') <? g_thr (s_grp s)) eqn:Elt.
-    - (* still below the threshold *)
-      injection H as <- <-. left. split; [|split; reflexivity].
-      apply Z.ltb_lt in Elt.
-      constructor; cbn [s_running s_cache s_grp].
-      + exact Hrun.
-      + unfold head; cbn [s_chain]. exact Hhead.
-      + rewrite (cache_find_add_present _ _ _ i sg _ Hfind (conj eq_refl eq_refl)).
-        cbn [ce_sigs]. rewrite (notin_memb_false _ _ Hn). reflexivity.
-      + exact Hidx'.
-      + exact Hnd'.
-      + exact Hval'.
-      + exact Elt.
-    - (* threshold reached: Recover succeeds and the beacon is stored *)
-      apply Z.ltb_ge in Elt.
-      destruct (recov_complete (g_poly (s_grp s)) (b_round hb + 1) (b_sig hb) (map snd sigs') (g_thr (s_grp s)))
+    rewrite W, Hfind in H. cbn [ce_sigs] in H. rewrite Bg in H.
+    destruct (Z.of_nat (length sigs') <? g_thr (s_grp s0)) eqn:Elt.
+    - injection H as <- <-. left. apply Z.ltb_lt in Elt.
+      constructor; cbn [s_chain s_cache]; try assumption.
+      unfold same_base; cbn [s_grp s_now s_pending s_running]. auto.
+    - apply Z.ltb_ge in Elt.
+      destruct (recov_complete (g_poly (s_grp s0)) (b_round hb + 1) (b_sig hb) (map snd sigs') (g_thr (s_grp s0)))
         as [fs [Hr Hvr]].
       { rewrite (map_idx_sigs _ Hidx'). exact Hnd'. }
       { rewrite map_length. exact Elt. }
       { intros x Hin. apply in_map_iff in Hin as [[j y] [E Hin]]. simpl in E; subst y. eauto. }
-      rewrite Hr in H. rewrite Hvr in H. cbn [negb] in H.
-      rewrite Z.eqb_refl in H. cbn [negb] in H.
+      rewrite Hr, Hvr in H. cbn [negb] in H. rewrite Z.eqb_refl in H. cbn [negb] in H.
       assert (Hacc : stack_accepts C hb (mkB (b_round hb + 1) (b_sig hb) fs) = true).
       { unfold stack_accepts. cbn [b_round b_prev]. rewrite !Z.eqb_refl. destruct (c_chained C); reflexivity. }
-      rewrite Hacc in H. cbn [negb] in H.
+      rewrite Hacc in H. cbn [negb] in H. fold (next_beacon hb fs) in H.
+      destruct (next_beacon_ok hb fs Hvr) as [Nr _].
       right. unfold produced.
-      set (sb := stored_form C (mkB (b_round hb + 1) (b_sig hb) fs)) in *.
-      assert (Hsb : b_round sb = b_round hb + 1 /\ vrec (b_round sb) (b_prev sb) (b_sig sb) = true).
-      { unfold sb, stored_form. destruct (c_chained C) eqn:Ech; cbn [b_round b_prev b_sig]; split; auto.
-        rewrite (vrec_unchained eq_refl _ _ (b_sig hb)). exact Hvr. }
-      assert (Hh : forall x, head (after_put x sb) = sb) by (intros x; unfold head; rewrite after_put_chain; reflexivity).
-      assert (Hrn : forall x, s_running (after_put x sb) = s_running x).
-      { intros x. unfold after_put. destruct (s_pending x) as [[t g]|]; [destruct (t <=? b_round sb)|]; reflexivity. }
-      destruct (b_round hb + 1 <? s_cur s); injection H as <- <-.
-      + unfold head in *; cbn [s_chain s_running]. destruct Hsb; auto.
-      + rewrite Hh, Hrn. cbn [s_running]. destruct Hsb; auto.
+      assert (Hflush : cache_flush (cache_flush (cache_add c (b_round hb + 1) (b_sig hb) (idx_of sg) sg) (b_round hb + 1))
+                                   (b_round (next_beacon hb fs)) = []).
+      { rewrite Hadd. simpl. destruct (Z.ltb_spec (b_round hb + 1) (b_round hb + 1)); [lia|reflexivity]. }
+      unfold after_put in H. rewrite Bp in H. cbn [fst snd s_now s_chain s_cache s_cur s_timers s_grp s_pending s_running] in H.
+      rewrite Hflush in H.
+      destruct (b_round hb + 1 <? s_cur s); injection H as <- <-;
+        (split; [unfold same_base; cbn [s_grp s_now s_pending s_running]; auto|]);
+        (split; [reflexivity|]); exists fs; (split; [exact Hvr|]); cbn [s_chain]; rewrite Hch; reflexivity.
+  Qed.
+
+  (* one more valid partial from a new index *)
+  Lemma collect_step s0 s hb sigs sg :
+    head s0 = hb -> collecting s0 s hb sigs -> ~ In (idx_of sg) (map fst sigs) ->
+    vpart (g_poly (s_grp s0)) (b_round hb + 1) (b_sig hb) sg = true ->
+    forall s' o, agg_partial s (b_round hb + 1) (b_sig hb) sg = (s', o) ->
+      collecting s0 s' hb (sigs ++ [(idx_of sg, sg)]) \/ produced s0 s' hb.
+  Proof.
+    intros Hhead Hc Hn Hv s' o H. destruct Hc as [Hb Hch Hca Hidx Hnd Hval Hfew].
+    assert (Hadd : cache_add (s_cache s) (b_round hb + 1) (b_sig hb) (idx_of sg) sg
+                   = [mkCE (b_round hb + 1) (b_sig hb) (sigs ++ [(idx_of sg, sg)])]).
+    { rewrite Hca. simpl. rewrite !Z.eqb_refl. cbn [andb ce_sigs]. rewrite (notin_memb_false _ _ Hn). reflexivity. }
+    eapply (agg_on_round s0 s hb (s_cache s) sg (sigs ++ [(idx_of sg, sg)])); try eassumption; try reflexivity.
+    - rewrite Hadd. simpl. rewrite !Z.eqb_refl. reflexivity.
+    - intros j x Hin. apply in_app_or in Hin as [Hin|[Hin|[]]]; [eauto|]. inversion Hin; subst; reflexivity.
+    - rewrite map_app. simpl. apply NoDup_app_single; assumption.
+    - intros j x Hin. apply in_app_or in Hin as [Hin|[Hin|[]]]; [eauto|]. inversion Hin; subst; exact Hv.
+  Qed.
+
+  (* the node's own partial opens the round *)
+  Lemma own_opens_round s0 s hb sg :
+    head s0 = hb -> same_base s0 s -> s_chain s = s_chain s0 -> s_cache s = [] ->
+    vpart (g_poly (s_grp s0)) (b_round hb + 1) (b_sig hb) sg = true ->
+    forall s' o, agg_partial s (b_round hb + 1) (b_sig hb) sg = (s', o) ->
+      collecting s0 s' hb [(idx_of sg, sg)] \/ produced s0 s' hb.
+  Proof.
+    intros Hhead Hb Hch Hca Hv s' o H.
+    eapply (agg_on_round s0 s hb [] sg [(idx_of sg, sg)]); try eassumption; try reflexivity.
+    - simpl. rewrite !Z.eqb_refl. reflexivity.
+    - intros i x [Hin|[]]. inversion Hin; subst; reflexivity.
+    - simpl. constructor; [intros []|constructor].
+    - intros i x [Hin|[]]. inversion Hin; subst; exact Hv.
+  Qed.
+
+  (* a valid partial of another live member, within the clock tolerance *)
+  Definition good_partial (s0 : nstate) (hb : beacon) (sg : Z) : Prop :=
+    0 <= idx_of sg /\ memb (idx_of sg) (g_members (s_grp s0)) = true /\ idx_of sg <> g_me (s_grp s0) /\
+    vpart (g_poly (s_grp s0)) (b_round hb + 1) (b_sig hb) sg = true /\
+    b_round hb + 1 <= fst (next_round (s_now s0) (c_period C) (c_genesis C)).
+
+  Lemma process_good s0 s hb sigs sg :
+    head s0 = hb -> collecting s0 s hb sigs -> good_partial s0 hb sg ->
+    process_partial s (b_round hb + 1) (b_sig hb) sg = agg_partial s (b_round hb + 1) (b_sig hb) sg.
+  Proof.
+    intros Hhead Hc [G1 [G2 [G3 [G4 G5]]]]. destruct (col_base _ _ _ _ Hc) as [Bg [Bn [Bp Br]]].
+    assert (Hhd : head s = hb) by (unfold head in *; rewrite (col_chain _ _ _ _ Hc); exact Hhead).
+    unfold Node.process_partial. rewrite Hhd, Bn, Bg.
+    destruct (Z.ltb_spec (fst (next_round (s_now s0) (c_period C) (c_genesis C))) (b_round hb + 1)); [lia|].
+    destruct (Z.leb_spec (b_round hb + 1) (b_round hb)); [lia|].
+    destruct (Z.ltb_spec (idx_of sg) 0); [lia|].
+    rewrite G2. cbn [negb]. destruct (Z.eqb_spec (idx_of sg) (g_me (s_grp s0))); [contradiction|].
+    rewrite G4. reflexivity.
+  Qed.
+
+  Lemma process_after_produced s0 s hb r p sg :
+    head s0 = hb -> produced s0 s hb -> r <= b_round hb + 1 -> exists o, process_partial s r p sg = (s, o).
+  Proof.
+    intros Hhead [_ [_ [fs [Hv Hch]]]] Hle. unfold Node.process_partial.
+    destruct (_ <? r); [eexists; reflexivity|].
+    assert (b_round (head s) = b_round hb + 1).
+    { unfold head. rewrite Hch. cbn [hd]. apply next_beacon_ok; exact Hv. }
+    destruct (Z.leb_spec r (b_round (head s))); [eexists; reflexivity|lia].
+  Qed.
+
+  (* deliveries of partials for the round after hb *)
+  Fixpoint deliver (s : nstate) (hb : beacon) (ps : list Z) : nstate :=
+    match ps with
+    | [] => s
+    | sg :: ps' => deliver (fst (step s (EPart (b_round hb + 1) (b_sig hb) sg))) hb ps'
+    end.
+
+  Lemma deliver_produced ps : forall s0 s hb, head s0 = hb -> produced s0 s hb -> produced s0 (deliver s hb ps) hb.
+  Proof.
+    induction ps as [|sg ps IH]; intros s0 s hb Hhead Hp; simpl; [exact Hp|]. apply IH; [exact Hhead|].
+    destruct Hp as [[Bg [Bn [Bp Br]]] Rest]. rewrite Br. cbn [negb].
+    destruct (process_after_produced s0 s hb (b_round hb + 1) (b_sig hb) sg Hhead
+                (conj (conj Bg (conj Bn (conj Bp Br))) Rest) ltac:(lia)) as [o Ho].
+    rewrite Ho. cbn [fst]. split; [unfold same_base; auto|exact Rest].
+  Qed.
+
+  Lemma deliver_collecting ps : forall s0 s hb sigs,
+    head s0 = hb -> collecting s0 s hb sigs ->
+    (forall sg, In sg ps -> good_partial s0 hb sg) ->
+    NoDup (map idx_of ps) -> (forall sg, In sg ps -> ~ In (idx_of sg) (map fst sigs)) ->
+    g_thr (s_grp s0) <= Z.of_nat (length sigs) + Z.of_nat (length ps) ->
+    produced s0 (deliver s hb ps) hb.
+  Proof.
+    induction ps as [|sg ps IH]; intros s0 s hb sigs Hhead Hc Hg Hnd Hni Hthr.
+    - exfalso. pose proof (col_few _ _ _ _ Hc). simpl in Hthr. lia.
+    - simpl. destruct (col_base _ _ _ _ Hc) as [_ [_ [_ Br]]]. rewrite Br. cbn [negb].
+      rewrite (process_good s0 s hb sigs sg Hhead Hc (Hg sg (or_introl eq_refl))).
+      destruct (Node.agg_partial C idx_of recov vrec s (b_round hb + 1) (b_sig hb) sg) as [s1 o1] eqn:E. cbn [fst].
+      destruct (Hg sg (or_introl eq_refl)) as [G1 [G2 [G3 [G4 G5]]]].
+      destruct (collect_step s0 s hb sigs sg Hhead Hc (Hni sg (or_introl eq_refl)) G4 s1 o1 E) as [Hc1|Hp].
+      + inversion Hnd; subst.
+        apply (IH s0 s1 (head s0) (sigs ++ [(idx_of sg, sg)]) eq_refl Hc1).
+        * intros x Hx. apply Hg. right; exact Hx.
+        * assumption.
+        * intros x Hx Hin. rewrite map_app in Hin. apply in_app_or in Hin as [Hin|[Hin|[]]].
+          -- exact (Hni x (or_intror Hx) Hin).
+          -- cbn [fst] in Hin. match goal with H : ~ In (idx_of sg) (map idx_of ps) |- _ => apply H end.
+             rewrite Hin. apply in_map. exact Hx.
+        * rewrite app_length. simpl in *. lia.
+      + apply deliver_produced; [exact Hhead|exact Hp].
+  Qed.
+
+  (* a node ready for the next round: running, nothing cached, no transition pending *)
+  Definition ready (s : nstate) : Prop := s_running s = true /\ s_cache s = [] /\ s_pending s = None.
+
+  (* C05, one node: a tick on top of head hb followed by the partials of enough other members
+     (in any order among themselves) leaves the node with exactly round hb+1 appended. *)
+  Theorem node_round_completes s hb rho ps :
+    ready s -> head s = hb -> rho <> b_round hb ->
+    let own := own_psig (g_poly (s_grp s)) (b_round hb + 1) (b_sig hb) in
+    vpart (g_poly (s_grp s)) (b_round hb + 1) (b_sig hb) own = true ->
+    (forall sg, In sg ps -> good_partial s hb sg) -> NoDup (map idx_of ps) ->
+    (forall sg, In sg ps -> idx_of sg <> idx_of own) ->
+    g_thr (s_grp s) <= 1 + Z.of_nat (length ps) ->
+    produced s (deliver (fst (step s (ETick rho None))) hb ps) hb.
+  Proof.
+    intros [Hrun [Hca Hpe]] Hhead Hrho own Hvown Hgood Hnd Hdiff Hthr.
+    cbn [Node.step]. rewrite Hrun. cbn [negb].
+    unfold Node.emit_on. cbn [s_grp]. rewrite Hhead.
+    destruct (Z.eqb_spec rho (b_round hb)) as [|_]; [contradiction|].
+    fold own.
+    set (s0 := mkS (s_now s) (s_chain s) (s_cache s) rho (s_timers s) (s_grp s) (s_pending s) true).
+    destruct (Node.agg_partial C idx_of recov vrec s0 (b_round hb + 1) (b_sig hb) own) as [s1 o1] eqn:E.
+    assert (Hstep : collecting s s1 hb [(idx_of own, own)] \/ produced s s1 hb).
+    { eapply (own_opens_round s s0 hb own); try eassumption; try reflexivity.
+      unfold same_base, s0; cbn [s_grp s_now s_pending s_running]. auto. }
+    match goal with |- produced s (deliver (fst ?x) hb ps) hb => destruct x as [s2 o2] eqn:E2 end.
+    cbn [fst]. assert (s2 = s1).
+    { destruct (b_round hb + 1 <? rho); simpl in E2; inversion E2; reflexivity. }
+    subst s2. clear E2.
+    destruct Hstep as [Hc|Hp]; [|apply deliver_produced; assumption].
+    eapply deliver_collecting; [exact Hhead|exact Hc|exact Hgood|exact Hnd| |].
+    - intros sg Hin [Hi|[]]. cbn [fst] in Hi. apply (Hdiff sg Hin). congruence.
+    - cbn [length]. change (Z.of_nat 1) with 1. lia.
   Qed.
 End NodeLive.
+
+(* ---------- re-broadcast on every tick, sync on a gap, rejoin by syncing ---------- *)
+Section NodeRejoin.
+  Variable C : cfg.
+  Variable idx_of : Z -> Z.
+  Variable vpart : Z -> Z -> Z -> Z -> bool.
+  Variable recov : Z -> Z -> Z -> list Z -> Z -> option Z.
+  Variable vrec : Z -> Z -> Z -> bool.
+  Variable own_psig : Z -> Z -> Z -> Z.
+  Notation step := (step C idx_of vpart recov vrec own_psig).
+
+  (* every tick handled by a running node re-broadcasts a partial on top of the stored head, and
+     a gap between the head and the ticked round additionally triggers a sync with the group *)
+  Theorem tick_rebroadcasts s rho sync :
+    s_running s = true ->
+    exists p sg o', snd (step s (ETick rho sync)) = OEmit (emit_round rho (head s)) p sg (s_now s) :: o' /\
+      (b_round (head s) + 1 < rho -> In (OSyncReq rho) o').
+  Proof.
+    intros Hrun. cbn [Node.step]. rewrite Hrun. cbn [negb].
+    destruct (Node.emit_on _ _ _ _ _ _ _ _) as [s1 o1] eqn:E1.
+    destruct (emit_on_spec C idx_of recov vrec own_psig _ _ _ _ _ E1) as [p [sg [o' [Eo _]]]].
+    cbn [s_now] in Eo. unfold head in Eo at 1. cbn [s_chain] in Eo. fold (head s) in Eo.
+    destruct (Z.ltb_spec (b_round (head s) + 1) rho).
+    - destruct (Node.do_sync _ _ _ _ _) as [s2 o2] eqn:E2. cbn [snd]. subst o1.
+      exists p, sg, (o' ++ o2). split; [reflexivity|]. intros _. apply in_or_app. right.
+      unfold Node.do_sync in E2. destruct sync as [bs|].
+      + destruct (Node.try_node _ _ _ _ _) as [s3 o3]. inversion E2; subst. left; reflexivity.
+      + inversion E2; subst. left; reflexivity.
+    - cbn [snd]. subst o1. exists p, sg, o'. split; [reflexivity|]. intros; lia.
+  Qed.
+
+  (* a stream of beacons each of which verifies and is the stack-acceptable successor of the
+     previous one (an honest peer's chain from head+1) *)
+  Fixpoint honest_stream (hd : beacon) (bs : list beacon) : Prop :=
+    match bs with
+    | [] => True
+    | b :: bs' => vrec (b_round b) (b_prev b) (b_sig b) = true /\ stack_accepts C hd b = true /\
+                  honest_stream (stored_form C b) bs'
+    end.
+
+  (* tryNode on such a stream stores every beacon up to the requested round (all of them if the
+     stream ends before it): a node that was down rejoins by syncing *)
+  Theorem try_node_stores_honest bs : forall s upto,
+    honest_stream (head s) bs ->
+    exists stored, s_chain (fst (try_node C vrec s upto bs)) = rev (map (stored_form C) stored) ++ s_chain s /\
+      (exists rest, bs = stored ++ rest) /\
+      ((forall b, In b bs -> b_round b <> upto) -> stored = bs).
+  Proof.
+    induction bs as [|b bs IH]; intros s upto Hs.
+    - exists []. simpl. split; [reflexivity|]. split; [exists []; reflexivity|auto].
+    - destruct Hs as [Hv [Ha Hs]]. simpl. rewrite Hv, Ha. cbn [negb].
+      assert (Hh : head (after_put s (stored_form C b)) = stored_form C b)
+        by (unfold head; rewrite after_put_chain; reflexivity).
+      destruct (Z.eqb_spec (b_round b) upto) as [Eu|Nu].
+      + exists [b]. cbn [fst]. rewrite after_put_chain. simpl. split; [reflexivity|]. split; [exists bs; reflexivity|].
+        intros Hn. exfalso. apply (Hn b (or_introl eq_refl)). exact Eu.
+      + rewrite <- Hh in Hs.
+        destruct (IH (after_put s (stored_form C b)) upto Hs) as [st [Hc [[rest Hr] Hall]]].
+        destruct (Node.try_node C vrec (after_put s (stored_form C b)) upto bs) as [s2 o2] eqn:E. cbn [fst] in *.
+        exists (b :: st). rewrite Hc, after_put_chain. simpl. rewrite <- app_assoc. split; [reflexivity|].
+        split; [exists rest; rewrite Hr; reflexivity|].
+        intros Hn. f_equal. apply Hall. intros x Hx. apply Hn. right; exact Hx.
+  Qed.
+End NodeRejoin.
